@@ -128,6 +128,7 @@ inductive Obs where
   | cbinRefcb (r : Nat) (res : Bool) (v e : Nat)
   | cbinRel (k seen : Nat)
   | invHook (a : Nat)
+  | probe (v e : Nat)
   | quiesce (B : List Nat)
 deriving DecidableEq, Repr
 
@@ -156,6 +157,7 @@ inductive Ev where
   | invHook (a : Nat)
   | selfRelSwap (a : Nat)
   | selfRelCS (a : Nat)
+  | probe (v e : Nat)
   | quiesce (B : List Nat)
 deriving DecidableEq, Repr
 
@@ -174,6 +176,7 @@ def Ev.obs : Ev → Option Obs
   | .cb (.refcb r true res v e) => some (.cbinRefcb r res v e)
   | .cb (.rel _ k seen) => some (.cbinRel k seen)
   | .invHook a => some (.invHook a)
+  | .probe v e => some (.probe v e)
   | .quiesce B => some (.quiesce B)
   | _ => none
 
@@ -494,6 +497,9 @@ def step (s : St) : Ev → Option St
         some { s with pend := if b'.isEmpty then rest else b' :: rest }
       else none
     | [] => none
+  | .probe v e =>
+    -- the harness reads both target containers right before it logs a quiescence point
+    if quiescent s ∧ v = s.target ∧ e = s.targetErr then some s else none
   | .quiesce B => if quiescent s ∧ B = pendingIds s then some s else none
 
 /-! ## candidates -/
@@ -522,6 +528,7 @@ def evsOf (s : St) : Obs → List Ev
   | .cbinRefcb r res v e => [.cb (.refcb r true res v e)]
   | .cbinRel k seen => (List.range s.calls.length).map fun i => .cb (.rel i k seen)
   | .invHook a => [.invHook a]
+  | .probe v e => [.probe v e]
   | .quiesce B => [.quiesce B]
 
 def model : OLTS St Ev Obs where
@@ -564,6 +571,7 @@ def Obs.parse : List String → Option Obs
   | ["cbin", "refcb", r, res, v, e] => do
       pure (.cbinRefcb (← r.toNat?) (← parseBit res) (← v.toNat?) (← e.toNat?))
   | ["cbin", "rel", k, seen] => do pure (.cbinRel (← k.toNat?) (← seen.toNat?))
+  | ["probe", v, e] => do pure (.probe (← v.toNat?) (← e.toNat?))
   | "quiesce" :: ts => do pure (.quiesce (← parseNats ts))
   | _ => none
 
